@@ -23,6 +23,7 @@ EXPLANATION = (
     " Also decided: nothing replaces or empties an engine's loop log after its construction."
     ' Round 4: every SEVM construction in __main__ is bound to a local (an engine built inline has a loop log nobody reads).'
     " Round 5: setUp paths leave the classification loop only through the warning arm or as candidates (R10.6); the loop log is read after the last consumer of the lazy engine's states; C03 R03.4 is evaluated here too."
+    ' Round 7: a branch answered unsat without the solver is a silent cut, so the solver-free shortcuts must be the reviewed ones (C02 R02.2).'
 )
 ASSUMPTIONS = ["logging delivers warn()/error() records", "C05 R05.1: stuck paths exclude PASS"]
 
